@@ -31,7 +31,7 @@ Definition helem_bitmap_tree (ws : list N) : tree :=
   T KHelloElemBitmap [VN 1; VN (4 + 4 * N.of_nat (length ws)); VB (List.concat (map be32 ws))] [].
 Definition helem_raw (e : helem) : list tree :=
   match e with
-  | HBitmap ws => [helem_bitmap_tree ws; T KRaw [VB (zeros (pad8 (4 + 4 * length ws)))] []]
+  | HBitmap ws => [helem_bitmap_tree ws]       (* the element's own encoding is padded *)
   | HOther ty body => [T KRaw [VB (be16 ty ++ be16 (4 + N.of_nat (length body)) ++ body ++ zeros (pad8 (4 + length body)))] []]
   end.
 Definition helem_view (e : helem) : list tree :=
